@@ -16,14 +16,23 @@ package decision
 //     For/Forwarded->client address list, X-Forwarded-Path->nothing, absent/empty->actual request).
 //   - peers for which "listed" depends on the reading (IPv4-mapped IPv6, zone-scoped, missing port) are
 //     ambiguous: either behaviour is accepted.
+//   - the hop itself is plain or TLS protected (req.TLS set in the handler phase, a TLS listener with a
+//     throw-away certificate in the socket phase): the actual scheme is http resp. https.
 
 import (
 	"bufio"
 	"bytes"
 	"context"
+	"crypto/ecdsa"
+	"crypto/elliptic"
+	crand "crypto/rand"
+	"crypto/tls"
+	"crypto/x509"
+	"crypto/x509/pkix"
 	"encoding/json"
 	"fmt"
 	"io"
+	"math/big"
 	"math/rand/v2"
 	"net"
 	"net/http"
@@ -384,6 +393,16 @@ type vfBase struct {
 	Host   string `json:"host"`
 	Path   string `json:"path"` // escaped, as on the request line
 	Query  string `json:"query"`
+	TLS    bool   `json:"tls,omitempty"` // the hop peer -> heimdall is TLS protected (req.TLS != nil)
+}
+
+// actualScheme is the scheme of the hop, i.e. what the view shows if no X-Forwarded-Proto is honoured.
+func (b vfBase) actualScheme() string {
+	if b.TLS {
+		return "https"
+	}
+
+	return "http"
 }
 
 type vfObs struct {
@@ -493,6 +512,13 @@ func vfDoHandler(e *vfEnv, c *vfCase, withHeaders bool) *vfObs {
 	req.RemoteAddr = c.RemoteAddr
 	req.Header.Set(vfHdrReq, id)
 
+	if c.Base.TLS {
+		// what net/http hands to the handler for a request read from a TLS connection
+		req.TLS = &tls.ConnectionState{
+			Version: tls.VersionTLS13, HandshakeComplete: true, CipherSuite: tls.TLS_AES_128_GCM_SHA256, ServerName: "heimdall.local",
+		}
+	}
+
 	if withHeaders {
 		for _, h := range c.Headers {
 			req.Header.Add(h.Name, h.Value)
@@ -506,10 +532,16 @@ func vfDoHandler(e *vfEnv, c *vfCase, withHeaders bool) *vfObs {
 }
 
 // vfDoSocket sends the request byte-exact (header casing, repeated header lines) over a real loopback
-// connection whose local address is chosen by the harness; returns the peer address heimdall saw.
-func vfDoSocket(e *vfEnv, addr string, local netip.Addr, c *vfCase, withHeaders bool) (*vfObs, string) {
+// connection whose local address is chosen by the harness (plain or TLS, as the case says); returns the
+// peer address heimdall saw.
+func vfDoSocket(e *vfEnv, la vfListenAddrs, local netip.Addr, c *vfCase, withHeaders bool) (*vfObs, string) {
 	id := vfNextID()
 	d := net.Dialer{Timeout: 3 * time.Second, LocalAddr: &net.TCPAddr{IP: net.IP(local.WithZone("").AsSlice()), Zone: local.Zone()}}
+	addr := la.plain
+
+	if c.Base.TLS {
+		addr = la.secure
+	}
 
 	conn, err := d.Dial("tcp", addr)
 	if err != nil {
@@ -518,6 +550,15 @@ func vfDoSocket(e *vfEnv, addr string, local netip.Addr, c *vfCase, withHeaders 
 	defer conn.Close()
 
 	_ = conn.SetDeadline(time.Now().Add(20 * time.Second))
+
+	if c.Base.TLS {
+		tc := tls.Client(conn, &tls.Config{InsecureSkipVerify: true, NextProtos: []string{"http/1.1"}}) //nolint:gosec
+		if err := tc.Handshake(); err != nil {
+			return &vfObs{Err: "tls handshake: " + err.Error()}, ""
+		}
+
+		conn = tc
+	}
 
 	target := c.Base.Path
 	if c.Base.Query != "" {
@@ -704,7 +745,7 @@ func vfFirst(m map[string][]string, k string) (string, bool) {
 }
 
 func vfModelFor(b vfBase, hm map[string][]string) vfModel {
-	m := vfModel{Method: b.Method, Scheme: "http", Host: b.Host, EscPath: b.Path, Query: b.Query}
+	m := vfModel{Method: b.Method, Scheme: b.actualScheme(), Host: b.Host, EscPath: b.Path, Query: b.Query}
 
 	if v, multi := vfFirst(hm, "X-Forwarded-Method"); v != "" || multi {
 		m.FreeMethod = multi
@@ -989,7 +1030,7 @@ func vfCheckActual(c *vfCase, o *vfObs) string {
 		return err.Error()
 	}
 
-	if v.Method != m.Method || v.Scheme != "http" || v.Host != m.Host || v.Path != m.Path || v.Query != m.Query {
+	if v.Method != m.Method || v.Scheme != m.Scheme || v.Host != m.Host || v.Path != m.Path || v.Query != m.Query {
 		return fmt.Sprintf("view %+v differs from the request line %+v", v, c.Base)
 	}
 
@@ -1062,6 +1103,16 @@ func (k *vfChecker) judge(c *vfCase, without, with *vfObs) {
 	r.Count("cases_"+c.Transport, 1)
 	r.Count("trust_"+c.Trust, 1)
 	r.Count("peer_"+c.PeerKind+"_"+c.Trust, 1)
+	r.Count("hop_"+c.Base.actualScheme()+"_"+c.Transport, 1)
+
+	if len(vfValidEntries(c.TrustedProxies)) > 1 {
+		r.Count("list_with_several_valid_entries_"+c.Trust, 1)
+	}
+
+	if model.Scheme != c.Base.actualScheme() && !model.FreeScheme {
+		// X-Forwarded-Proto contradicts the transport of the hop
+		r.Count("proto_header_differs_from_hop_"+c.Base.actualScheme()+"_"+c.Trust, 1)
+	}
 
 	if nontrivial {
 		r.Count("nontrivial", 1)
@@ -1074,6 +1125,7 @@ func (k *vfChecker) judge(c *vfCase, without, with *vfObs) {
 	fail := func(sig, what string) {
 		cc := *c
 		cc.Without, cc.With, cc.Why = without, with, what
+		r.Count("violations_"+c.Transport+"_"+c.Base.actualScheme(), 1)
 		r.Violation(sig, fmt.Sprintf("%s/%s trusted_proxies=%s peer=%q: %s", c.Mode, c.Transport, vfCfgKey(c.TrustedProxies), c.RemoteAddr, what), cc)
 	}
 
@@ -1208,6 +1260,16 @@ var vfCfgPool = []vfCfg{ //nolint:gochecknoglobals
 	vfList("mixed", "10.0.0.0/8", "proxy.internal", "2001:db8::/32"),
 	vfList("mixed", "192.168.0.0/16", "garbage/8", "::1"),
 	vfList("mixed", "localhost", "127.0.0.0/8"),
+	// entries which overlap: every entry counts, whatever the others cover and whatever the order
+	vfList("nested", "10.0.0.0/24", "10.0.0.0/8"),
+	vfList("nested", "10.0.0.0/8", "10.0.0.0/24"),
+	vfList("nested", "192.168.1.0/24", "192.168.0.0/16"),
+	vfList("nested", "172.16.0.0", "172.16.0.0/12"),
+	vfList("nested", "172.16.0.0/12", "172.16.0.0"),
+	vfList("nested", "10.0.0.1", "10.0.0.0/8", "10.0.0.1"),
+	vfList("nested", "fd00::/64", "fd00::/8"),
+	vfList("nested", "2001:db8::/32", "2001:db8::", "2001:db8::/48"),
+	vfList("nested", "192.0.2.64/26", "192.0.2.64/26", "192.0.2.0/24"),
 }
 
 var (
@@ -1224,12 +1286,15 @@ func vfPick[T any](rng *rand.Rand, l []T) T { return l[rng.IntN(len(l))] }
 // vfGenCfg picks from the fixed pool or from a bounded pool of random mixtures. The number of distinct
 // lists is bounded because every list needs its own service (and, in proxy mode, its own http.Transport
 // with its own idle connections to the upstream).
-func vfGenCfg(rng *rand.Rand, i int, random []vfCfg) vfCfg {
-	if rng.IntN(10) < 6 {
+func vfGenCfg(rng *rand.Rand, i int, random, nested []vfCfg) vfCfg {
+	switch x := rng.IntN(10); {
+	case x < 6:
 		return vfCfgPool[i%len(vfCfgPool)]
+	case x < 8:
+		return random[rng.IntN(len(random))]
+	default:
+		return nested[rng.IntN(len(nested))]
 	}
-
-	return random[rng.IntN(len(random))]
 }
 
 func vfRandomCfg(rng *rand.Rand) vfCfg {
@@ -1255,6 +1320,86 @@ func vfRandomCfg(rng *rand.Rand) vfCfg {
 	}
 
 	return vfCfg{Kind: kind, TP: &l}
+}
+
+// vfSignificantBits is the length of the shortest prefix whose network address is still a.
+func vfSignificantBits(a netip.Addr) int {
+	b := a.AsSlice()
+
+	for i := len(b)*8 - 1; i >= 0; i-- {
+		if b[i/8]&(1<<(7-i%8)) != 0 {
+			return i + 1
+		}
+	}
+
+	return 0
+}
+
+// vfNestedCfg derives a list from one entry: the same entry again, wider and narrower ranges starting at the same
+// address or elsewhere, single addresses at the start of / inside the range. With reverse the same list is returned in
+// the opposite order (the generator is called twice with equally seeded streams), unrelated entries may be mixed in.
+func vfNestedCfg(rng *rand.Rand, reverse bool) vfCfg {
+	var p netip.Prefix
+
+	if rng.IntN(4) == 0 {
+		a := netip.MustParseAddr(vfPick(rng, vfValidIPs))
+		p = netip.PrefixFrom(a, a.BitLen())
+	} else {
+		p = netip.MustParsePrefix(vfPick(rng, vfValidCIDRs)).Masked()
+	}
+
+	str := func(q netip.Prefix) string {
+		if q.IsSingleIP() && rng.IntN(2) == 0 {
+			return q.Addr().String()
+		}
+
+		return q.String()
+	}
+	l := []string{str(p)}
+	base, maxBits := p.Addr(), p.Addr().BitLen()
+
+	for n := 1 + rng.IntN(3); n > 0; n-- {
+		switch rng.IntN(8) {
+		case 0: // the same again
+			l = append(l, l[0])
+		case 1, 2: // wider, same network address
+			if lo := max(vfSignificantBits(base), 1); lo < p.Bits() {
+				l = append(l, netip.PrefixFrom(base, lo+rng.IntN(p.Bits()-lo)).String())
+			} else {
+				l = append(l, l[0])
+			}
+		case 3: // wider, other network address
+			if p.Bits() > 1 {
+				l = append(l, netip.PrefixFrom(base, 1+rng.IntN(p.Bits()-1)).Masked().String())
+			}
+		case 4: // narrower, same network address
+			if p.Bits() < maxBits {
+				l = append(l, str(netip.PrefixFrom(base, p.Bits()+1+rng.IntN(maxBits-p.Bits()))))
+			}
+		case 5: // narrower, somewhere inside
+			if p.Bits() < maxBits {
+				l = append(l, str(netip.PrefixFrom(vfRandomIn(rng, p), p.Bits()+1+rng.IntN(maxBits-p.Bits())).Masked()))
+			}
+		case 6: // first / last / some address of the range
+			l = append(l, vfInsideAddr(rng, p).String())
+		default: // something unrelated
+			if rng.IntN(3) == 0 {
+				l = append(l, vfPick(rng, vfInvalid))
+			} else {
+				l = append(l, vfPick(rng, vfValidCIDRs))
+			}
+		}
+	}
+
+	rng.Shuffle(len(l), func(i, j int) { l[i], l[j] = l[j], l[i] })
+
+	if reverse {
+		for i, j := 0, len(l)-1; i < j; i, j = i+1, j-1 {
+			l[i], l[j] = l[j], l[i]
+		}
+	}
+
+	return vfCfg{Kind: "nested", TP: &l}
 }
 
 func vfAddrPort(a netip.Addr, port int) string {
@@ -1320,6 +1465,41 @@ func vfInsideAddr(rng *rand.Rand, p netip.Prefix) netip.Addr {
 	}
 }
 
+// vfDifferenceAddr returns an address covered by one entry of the list and by no other entry that denotes another
+// set of addresses, if the list has such a pair of entries (nested ranges, an address and a range around it).
+func vfDifferenceAddr(rng *rand.Rand, valid []netip.Prefix) (netip.Addr, bool) {
+	for try := 0; try < 8; try++ {
+		in := vfPick(rng, valid)
+		overlaps := false
+
+		for _, o := range valid {
+			if o != in && o.Overlaps(in) {
+				overlaps = true
+			}
+		}
+
+		if !overlaps {
+			continue
+		}
+
+		for _, a := range []netip.Addr{vfRandomIn(rng, in), vfRandomIn(rng, in), vfLastOf(in), in.Addr()} {
+			only := true
+
+			for _, o := range valid {
+				if o != in && o.Contains(a) {
+					only = false
+				}
+			}
+
+			if only {
+				return a, true
+			}
+		}
+	}
+
+	return netip.Addr{}, false
+}
+
 func vfGenPeer(rng *rand.Rand, cfg vfCfg) (string, string) {
 	port := 1024 + rng.IntN(60000)
 	valid := vfValidEntries(cfg.TP)
@@ -1327,6 +1507,12 @@ func vfGenPeer(rng *rand.Rand, cfg vfCfg) (string, string) {
 
 	if len(valid) == 0 && x < 55 {
 		x = 55 + rng.IntN(45)
+	}
+
+	if len(valid) > 1 && x < 35 && rng.IntN(2) == 0 {
+		if a, ok := vfDifferenceAddr(rng, valid); ok {
+			return vfAddrPort(a, port), "difference"
+		}
 	}
 
 	switch {
@@ -1526,7 +1712,10 @@ func vfGenHeaders(rng *rand.Rand, mask int, cfg vfCfg, singleLines bool) []vfHdr
 }
 
 func vfGenBase(rng *rand.Rand) vfBase {
-	return vfBase{Method: vfPick(rng, vfMethods), Host: vfPick(rng, vfHosts), Path: vfPick(rng, vfPaths), Query: vfPick(rng, vfQueries)}
+	return vfBase{
+		Method: vfPick(rng, vfMethods), Host: vfPick(rng, vfHosts), Path: vfPick(rng, vfPaths), Query: vfPick(rng, vfQueries),
+		TLS: rng.IntN(3) == 0,
+	}
 }
 
 // ------------------------------------------------------------------------------------------------
@@ -1542,10 +1731,21 @@ func vfPhaseHandler(r *core.Run, e *vfEnv, k *vfChecker, n int) {
 		random[i] = vfRandomCfg(rng)
 	}
 
+	// lists of overlapping entries, each of them in both orders
+	nested := make([]vfCfg, 2*r.Pick(30, 150))
+
+	for i := 0; i < len(nested); i += 2 {
+		s1, s2 := rng.Uint64(), rng.Uint64()
+		nested[i] = vfNestedCfg(rand.New(rand.NewPCG(s1, s2)), false)
+		nested[i+1] = vfNestedCfg(rand.New(rand.NewPCG(s1, s2)), true)
+	}
+
 	r.Set("distinct_random_trusted_proxies_lists", len(random))
+	r.Set("distinct_nested_trusted_proxies_lists", len(nested))
+	r.Set("nested_trusted_proxies_lists_sample", []any{nested[0].TP, nested[1].TP, nested[2].TP, nested[3].TP})
 
 	for i := range cases {
-		cfg := vfGenCfg(rng, i, random)
+		cfg := vfGenCfg(rng, i, random, nested)
 		peer, kind := vfGenPeer(rng, cfg)
 		trust := vfTrust(cfg.TP, peer)
 		mask := 1 + (i % 127) // every non-empty subset of the seven headers, round robin
@@ -1663,29 +1863,79 @@ func vfUpstreamTrouble(e *vfEnv, o *vfObs) bool {
 	return e.up != nil && o.Status == http.StatusBadGateway && len(o.Upstream) == 0
 }
 
+// vfListenAddrs: the same service reachable without and with TLS
+type vfListenAddrs struct {
+	plain  string
+	secure string
+}
+
 type vfSockSrv struct {
 	srv   *http.Server
-	addr4 string
-	addr6 string
+	addr4 vfListenAddrs
+	addr6 vfListenAddrs
+}
+
+var vfThrowAwayCert = sync.OnceValues(func() (tls.Certificate, error) { //nolint:gochecknoglobals
+	key, err := ecdsa.GenerateKey(elliptic.P256(), crand.Reader)
+	if err != nil {
+		return tls.Certificate{}, err
+	}
+
+	tmpl := &x509.Certificate{
+		SerialNumber: big.NewInt(9), Subject: pkix.Name{CommonName: "heimdall.local"}, DNSNames: []string{"heimdall.local"},
+		NotBefore: time.Now().Add(-time.Hour), NotAfter: time.Now().Add(24 * time.Hour),
+		KeyUsage: x509.KeyUsageDigitalSignature, ExtKeyUsage: []x509.ExtKeyUsage{x509.ExtKeyUsageServerAuth},
+	}
+
+	der, err := x509.CreateCertificate(crand.Reader, tmpl, tmpl, &key.PublicKey, key)
+	if err != nil {
+		return tls.Certificate{}, err
+	}
+
+	return tls.Certificate{Certificate: [][]byte{der}, PrivateKey: key}, nil
+})
+
+// vfListenBoth serves srv on two fresh ports of host: plain, and behind TLS (what ListenAndServeTLS does with the
+// listener: requests arrive at the handler with req.TLS set).
+func vfListenBoth(srv *http.Server, network, host string) (vfListenAddrs, error) {
+	cert, err := vfThrowAwayCert()
+	if err != nil {
+		return vfListenAddrs{}, err
+	}
+
+	lp, err := net.Listen(network, host+":0")
+	if err != nil {
+		return vfListenAddrs{}, err
+	}
+
+	ls, err := net.Listen(network, host+":0")
+	if err != nil {
+		_ = lp.Close()
+
+		return vfListenAddrs{}, err
+	}
+
+	go func() { _ = srv.Serve(lp) }()
+	go func() {
+		_ = srv.Serve(tls.NewListener(ls, &tls.Config{Certificates: []tls.Certificate{cert}, MinVersion: tls.VersionTLS12, NextProtos: []string{"http/1.1"}}))
+	}()
+
+	return vfListenAddrs{plain: lp.Addr().String(), secure: ls.Addr().String()}, nil
 }
 
 func vfServe(e *vfEnv, tp *[]string) (*vfSockSrv, error) {
 	// a fresh service: Serve/Close must not touch the cached one used by the handler phase
 	s := &vfSockSrv{srv: vfNewService(e.conf, e.cch, e.exec, tp)}
 
-	l4, err := net.Listen("tcp4", "127.0.0.1:0")
+	a4, err := vfListenBoth(s.srv, "tcp4", "127.0.0.1")
 	if err != nil {
 		return nil, err
 	}
 
-	s.addr4 = l4.Addr().String()
+	s.addr4 = a4
 
-	go func() { _ = s.srv.Serve(l4) }()
-
-	if l6, err := net.Listen("tcp6", "[::1]:0"); err == nil {
-		s.addr6 = l6.Addr().String()
-
-		go func() { _ = s.srv.Serve(l6) }()
+	if a6, err := vfListenBoth(s.srv, "tcp6", "[::1]"); err == nil {
+		s.addr6 = a6
 	}
 
 	return s, nil
@@ -1706,6 +1956,10 @@ func vfPhaseSocket(r *core.Run, e *vfEnv, k *vfChecker, n int) {
 		vfList("invalid", "localhost"),
 		vfList("mixed", "garbage", "127.0.0.2", "::1/128"),
 		vfList("mapped", "::ffff:127.0.0.1"),
+		vfList("nested", "127.0.0.0/30", "127.0.0.0/8"),
+		vfList("nested", "127.0.0.0/8", "127.0.0.0/30"),
+		vfList("nested", "127.0.0.0", "127.0.0.0/12", "::1"),
+		vfList("nested", "127.0.0.2", "127.0.0.2/31", "127.0.0.2", "::/128", "::/64"),
 	}
 	locals4 := []string{"127.0.0.1", "127.0.0.2", "127.0.0.3", "127.0.0.4", "127.15.255.255", "127.16.0.0", "127.31.255.255", "127.32.0.0", "127.9.9.9"}
 	per := (n + len(cfgs) - 1) / len(cfgs)
@@ -1718,13 +1972,13 @@ func vfPhaseSocket(r *core.Run, e *vfEnv, k *vfChecker, n int) {
 			return
 		}
 
-		if srv.addr6 == "" {
+		if srv.addr6.plain == "" {
 			r.Count("socket_ipv6_unavailable", 1)
 		}
 
 		for i := 0; i < per; i++ {
 			local, addr := netip.MustParseAddr(vfPick(rng, locals4)), srv.addr4
-			if srv.addr6 != "" && rng.IntN(4) == 0 {
+			if srv.addr6.plain != "" && rng.IntN(4) == 0 {
 				local, addr = netip.MustParseAddr("::1"), srv.addr6
 			}
 
@@ -1821,14 +2075,12 @@ func vfPhaseLinkLocal(r *core.Run, e *vfEnv, k *vfChecker, n int) {
 	for ci, cfg := range cfgs {
 		srv := vfNewService(e.conf, e.cch, e.exec, cfg.TP)
 
-		ln, err := net.Listen("tcp6", "["+ll.String()+"]:0")
+		la, err := vfListenBoth(srv, "tcp6", "["+ll.String()+"]")
 		if err != nil {
 			r.Count("socket_linklocal_unavailable", 1)
 
 			return
 		}
-
-		go func() { _ = srv.Serve(ln) }()
 
 		for i := 0; i < n; i++ {
 			peer := vfAddrPort(ll, 1)
@@ -1838,8 +2090,8 @@ func vfPhaseLinkLocal(r *core.Run, e *vfEnv, k *vfChecker, n int) {
 				Base: vfGenBase(rng), Headers: vfGenHeaders(rng, 1+((ci*n+i)*5%127), cfg, trust != "untrusted"), Trust: trust,
 			}
 
-			without, ra := vfDoSocket(e, ln.Addr().String(), ll, c, false)
-			with, _ := vfDoSocket(e, ln.Addr().String(), ll, c, true)
+			without, ra := vfDoSocket(e, la, ll, c, false)
+			with, _ := vfDoSocket(e, la, ll, c, true)
 
 			if without.Err != "" || with.Err != "" || ra == "" {
 				r.Count("socket_linklocal_transport_errors", 1)
@@ -1892,7 +2144,9 @@ func vfTestC09(t *testing.T) {
 		"nil/empty/IPv4/IPv6/CIDR/invalid/mixed lists plus random mixtures) x (RemoteAddr inside / at the boundary of / far from the listed ranges, " +
 		"IPv4-mapped, zone-scoped, unparsable) x (request line) x (every non-empty subset of the 7 forwarded headers round robin, hostile values incl. " +
 		"addresses taken from the trusted list, random name casing, repeated lines); each case is executed with and without the headers. A second phase " +
-		"sends byte-exact requests over real loopback connections from 127.x.y.z and ::1. Oracle: own reading of trusted_proxies (net/netip); untrusted => " +
+		"sends byte-exact requests over real loopback connections from 127.x.y.z and ::1. The lists include overlapping entries (duplicates, nested ranges " +
+		"with the same or another first address, addresses of listed ranges) in both orders with peers from the set differences; a third of the requests " +
+		"arrives over TLS (req.TLS set resp. a TLS listener with a throw-away certificate), the actual scheme is then https. Oracle: own reading of trusted_proxies (net/netip); untrusted => " +
 		"observation (status, rule, view, response, everything the upstream received) identical to the header-less request; trusted => model of honoured " +
 		"headers; peers whose membership depends on the reading are ambiguous (either accepted). A case is non-trivial when honouring its headers would " +
 		"change the request view (method, scheme, host, path, query or client addresses) and the peer is not ambiguous.")
@@ -1901,7 +2155,7 @@ func vfTestC09(t *testing.T) {
 		"header maps handed to the handler have canonical keys, as net/http guarantees for requests read from a connection (non-canonical map keys: observation only, see probe_noncanonical_map_keys_untrusted_peer)",
 		"peers that are listed only under one of the two readings (IPv4-mapped IPv6 vs IPv4, zone-scoped IPv6, RemoteAddr without port) may be treated either way",
 		"repeated lines of a single-valued header and Forwarded values that are not of the plain `for=token` form are only generated for/checked weakly on trusted peers",
-		"TLS connections (scheme https from the connection) are not driven; the actual scheme is always http",
+		"the scheme of a TLS protected hop is https, of a plain one http; X-Forwarded-Proto of a trusted peer overrides it either way; HTTP/2 is not driven",
 	)
 
 	e, err := vfSetup()
@@ -1934,6 +2188,10 @@ func vfTestC09(t *testing.T) {
 	r.Require("untrusted_held_with_rule", r.Counter("untrusted_held_with_rule"), int64(r.Pick(300, 5000)))
 	r.Require("trusted_view_changes", r.Counter("trusted_view_changes"), int64(r.Pick(150, 2500)))
 	r.Require("socket_cases", r.Counter("cases_socket"), int64(r.Pick(200, 5000)))
+	r.Require("tls_hop_handler_cases", r.Counter("hop_https_handler"), int64(r.Pick(500, 10000)))
+	r.Require("tls_hop_socket_cases", r.Counter("hop_https_socket"), int64(r.Pick(50, 1000)))
+	r.Require("trusted_proto_header_differs_from_tls_hop", r.Counter("proto_header_differs_from_hop_https_trusted"), int64(r.Pick(20, 400)))
+	r.Require("trusted_peers_in_set_differences", r.Counter("peer_difference_trusted"), int64(r.Pick(50, 1000)))
 
 	if sk := r.Counter("proxy_upstream_trouble_skipped"); sk > r.Counter("cases_handler")/100 {
 		r.Inconclusive(fmt.Sprintf("proxy mode: %d cases skipped because the local upstream was not reachable", sk))
